@@ -74,6 +74,17 @@ def cases(tier, seed):
             far = max((0, 650, 1950, 3250, 3999), key=lambda x: min(abs(x - pl), abs(x - cl)))
             yield {"kind": "forced_seek_between", "variant": variant, "parent_line": pl, "child_line": cl,
                    "child_reads": nread, "park_line": far}
+    # children made by a bare os.fork() (no multiprocessing hook runs in them) under the same forced interleaving
+    for variant in ("buf", "map", "rec"):
+        for pl, cl in pairs[:2]:
+            far = max((0, 650, 1950, 3250, 3999), key=lambda x: min(abs(x - pl), abs(x - cl)))
+            yield {"kind": "forced_seek_between", "variant": variant, "parent_line": pl, "child_line": cl, "child_reads": 2,
+                   "park_line": far, "fork": "os"}
+    # the parent reads lines 0..k one after the other, forks, and the child's FIRST read is exactly line k+1 (then others)
+    for variant in VARIANTS:
+        for k in (0, 5):
+            for how in ("mp", "os"):
+                yield {"kind": "continue_after_fork", "variant": variant, "k": k, "fork": how}
     for variant in ("buf", "map", "rec"):
         for k, pre in itertools.product((1, 3) if quick else (1, 2, 3, 5), (True, False)):
             yield {"kind": "own_description", "variant": variant, "children": k, "parent_reads_first": pre}
@@ -272,6 +283,78 @@ def _seek_child(f, read, lines, first, n, conn):
         conn.send([("exception", repr(e))])
 
 
+class _OsForkChild:
+    """a child made by a bare os.fork(): nothing of multiprocessing's after-fork machinery runs in it"""
+
+    def __init__(self, body):
+        self.body, self.pid = body, None
+
+    def start(self):
+        self.pid = os.fork()
+        if self.pid == 0:
+            try:
+                self.body()
+            finally:
+                os._exit(0)
+
+    def join(self, timeout=None):
+        import time
+        t0 = time.time()
+        while timeout is None or time.time() - t0 < timeout:
+            try:
+                p, _ = os.waitpid(self.pid, os.WNOHANG)
+            except ChildProcessError:
+                return
+            if p == self.pid:
+                return
+            time.sleep(0.01)
+        try:
+            os.kill(self.pid, 9)
+            os.waitpid(self.pid, 0)
+        except OSError:
+            pass
+
+
+def _continue_child(read, lines, k, conn):
+    try:
+        order = [k + 1, k + 2, 3000, k + 1, 0]
+        conn.send([(i, read(i)) for i in order])
+    except BaseException as e:  # noqa
+        conn.send([("exception", repr(e))])
+
+
+def _body_continue_after_fork(case):
+    import multiprocessing
+    with U.Scratch(kill_children=True) as sc:
+        f, read, lines = _prepare(sc, case["variant"])
+        k = case["k"]
+        with f:
+            for i in range(k + 1):
+                if read(i) != lines[i]:
+                    return _fail("fork/single-process-read", lines[i], read(i))
+            a, b = multiprocessing.Pipe()
+            results = []
+            for _ in range(2):
+                if case["fork"] == "os":
+                    child = _OsForkChild(lambda: _continue_child(read, lines, k, b))
+                else:
+                    child = multiprocessing.Process(target=_continue_child, args=(read, lines, k, b))
+                child.start()
+                if not a.poll(15):
+                    child.join(1)
+                    return _fail("fork/child-read", "an answer from the child", "none within 15 s")
+                results.append(a.recv())
+                child.join(10)
+            for res in results:
+                wrong = [(i, v) for i, v in res if i == "exception" or v != lines[i]]
+                if wrong:
+                    return _fail("fork/first-read-after-fork", {"parent read lines": "0..%d" % k, "child reads": [i for i, _ in res],
+                                                                "expected": [lines[i] for i, _ in res][:2]}, wrong[:3])
+            if read(k + 1) != lines[k + 1]:
+                return _fail("fork/parent-read", lines[k + 1], read(k + 1))
+    return {"ok": True, "trivial": False, "scenario": "fork/continue-after-fork-" + case["variant"], "expected": None, "observed": None}
+
+
 def _body_forced_seek(case):
     import multiprocessing
     with U.Scratch(kill_children=True) as sc:
@@ -284,8 +367,11 @@ def _body_forced_seek(case):
             gate = _SeekGate(f.file)
             f.file = gate
             a, b = multiprocessing.Pipe()
-            child = multiprocessing.Process(target=_seek_child,
-                                            args=(f, read, lines, case["child_line"], case["child_reads"], b))
+            if case.get("fork") == "os":
+                child = _OsForkChild(lambda: _seek_child(f, read, lines, case["child_line"], case["child_reads"], b))
+            else:
+                child = multiprocessing.Process(target=_seek_child,
+                                                args=(f, read, lines, case["child_line"], case["child_reads"], b))
             child.start()
             child_result = []
 
@@ -317,7 +403,7 @@ def _body_forced_seek(case):
 
 def run_case(case):
     bodies = {"stress": _body_stress, "own_description": _body_own_description,
-              "forced_seek_between": _body_forced_seek}
+              "forced_seek_between": _body_forced_seek, "continue_after_fork": _body_continue_after_fork}
     kind = case.get("kind")
     if kind not in bodies:
         raise ValueError("unknown kind %r" % (kind,))
